@@ -17,6 +17,12 @@
     the same value).
   * `C13_preimage_statement` / `C13_preimage_statement_false` — the statement without the
     independence hypothesis is FALSE of the code (finding F5), by a concrete witness.
+  * `C13_preimage_needs_injective` — neither can "no two keys with the same value" be dropped
+    (finding F5b): `{a: b, c: b}` meets the other preconditions and gives a wrong result.
+  * `C13_image_names`, `C13_preimage_names_partial`, `C13_rename_levels` — the same with the
+    renaming and `qvars` given by name / by level.
+  Every theorem is followed by a non-vacuity `example` on a concrete manager (`imgM`: `x < xp`;
+  `imgM3`: `a < b < c`).
 -/
 import DDProofs.ImageExample3
 import DDProofs.QuantCor
@@ -236,11 +242,6 @@ theorem C13_rename_levels (t : Tbl) (l : List (Int × Int)) (h : (l.map (·.1)).
     intPairs (l.map fun p => (Key.lvl p.1, Key.lvl p.2)) = l :=
   intPairs_resolveRename_levels t l h
 
-theorem imgM_contains_x : imgM.tbl.vars.contains "x" = true :=
-  (vars_contains_iff _ _).mpr ⟨0, imgM_vars_x⟩
-theorem imgM_contains_xp : imgM.tbl.vars.contains "xp" = true :=
-  (vars_contains_iff _ _).mpr ⟨1, imgM_vars_xp⟩
-
 /-- non-vacuity (`C13_image_names`, both quantifier kinds): the successors of the set `x ∨ xp`
 under the relation `x ↔ xp`... with names: `image(x ↔ xp, x ∨ xp, {xp: x}, {x})` returns a
 reference of `Q x. (x ↔ xp) ∧ (x ∨ xp)` with `xp` renamed to `x`; for `∃` this is `x` -/
@@ -361,11 +362,6 @@ theorem C13_image_refuses (m : Mgr) (hI : Inv m) (hV : VarsBij m.tbl)
      image_refuses_target m hI hV trans source hu hv rn qvars fa q hq hov hnl hlv p hp l hl hlq
        hdep⟩
 
-theorem imgM_dep3_0 : dependsOn imgM.tbl 3 0 := by
-  refine ⟨fun _ => false, ?_⟩
-  rw [imgM_den3, imgM_den3]
-  simp [upd]
-
 /-- non-vacuity (`C13_image_refuses`): (1) `{x: xp, xp: x}` overlaps; (2) `{xp: x}` with `x` in
 the support of `trans = (x ↔ xp)` and nothing quantified -/
 example : image 3 4 [(.lvl 0, .lvl 1), (.lvl 1, .lvl 0)] [] false imgM = (.error .assertion, imgM) ∧
@@ -442,12 +438,6 @@ theorem C13_preimage_names_partial (m : Mgr) (hI : Inv m) (hoff : m.lastLen = no
             (l.map fun p => ((lvlOf m.tbl p.1 : Int), (lvlOf m.tbl p.2 : Int))) j))) a :=
   preimage_spec_partial_names m hI hoff hV trans target hu hv l qs fa hkeys hd hqd hov hadj hinj
     hind
-
-theorem imgM_indep5_1 : ¬ dependsOn imgM.tbl 5 1 := by
-  rintro ⟨a, h⟩
-  apply h
-  rw [imgM_den5, imgM_den5]
-  simp [upd]
 
 /-- non-vacuity (`C13_preimage_partial`, `C13_preimage_names_partial`, both quantifier kinds):
 `preimage(x ↔ xp, x, {x: xp}, {xp})`: the target `x` does not depend on `xp`; for `∃` the result
